@@ -15,7 +15,7 @@ import (
 )
 
 const ruleC26 = "rapid state machine: 2 accounts x 3 contract names, 10..25 actions (add/update/tryUpdate/remove/get/borrow/names/" +
-	"calls) from an 18-source pool (valid, compatible, incompatible, type/syntax error, name mismatch, enum, interface, init panics/arguments), " +
+	"calls) from a 20-source pool (valid, compatible, incompatible, type/syntax error, name mismatch, enum, interface, init panics/arguments, contracts importing another pool contract), " +
 	"1-3 lifecycle/read actions per transaction, each lifecycle call surrounded by observations through the same account reference (names, names.length, get(name:), borrow, a call of the contract) compared with the model state at that point, 10% aborted; every transaction is followed by a script reading names/get/borrow/version/state of all 6 slots; " +
 	"both engines; one evaluation = one history on both engines. Non-trivial: the history has a failed tryUpdate on a deployed contract " +
 	"(the verification script then calls the old version successfully) and a successful add after a committed remove of the same name; " +
